@@ -503,3 +503,9 @@ for _pid in ("C08", "C11"):
     SPECS[_pid]["bounded"].append(("contracts.assumed_checks", "assumed:io_read_only_file"))
 SPECS["C12"]["bounded"].append(("contracts.assumed_checks", "assumed:numpy_item_model"))
 SPECS["C10"]["bounded"].append(("contracts.assumed_checks", "assumed:re_split_tokeniser"))
+
+for _pid in ("C08", "C09"):
+    SPECS[_pid]["bounded"].append(("contracts.constructors", "smpl_extract.alcohol.mdf:MdfStream.__init__"))
+SPECS["C15"]["contracts"].append("lemma:pipeline_block[1x1,w=2,cut]")
+SPECS["C15"]["level_text"] += ("; the stereo pipeline over truncated streams (lemma:pipeline_block[1x1,w=2,cut]): a failing read ends the data, and every block that IS returned is a complete "
+                               "block with each channel in its place - never the channels read so far")
